@@ -179,5 +179,5 @@ PARTS = {"unit": check_unit}
 
 def run_shard(ctx, rec):
     drive_enum(ctx, rec, "unit", matrix_cases(ctx), check_unit, exhaustive=True, tag="unit/dtype_order_matrix")
-    drive(ctx, rec, "unit", G.unit_case(CMDS, max_rank=2, dtypes=("float64", "int64", "float64", "int64", "float32", "int32")), check_unit, ctx.n(3000, 100000))
+    drive(ctx, rec, "unit", G.unit_case(CMDS, max_rank=2, dtypes=("float64", "int64", "float64", "int64", "float32", "int32"), tiny=True), check_unit, ctx.n(3000, 100000))
     drive(ctx, rec, "unit", error_case(), check_unit, ctx.n(600, 12000), tag="unit/errors")
